@@ -4,6 +4,7 @@ import (
 	"fmt"
 	"go/token"
 	"go/types"
+	"os"
 	"sort"
 	"strings"
 
@@ -396,6 +397,9 @@ func ruleRegisterCallers(c *Ctx) []Obligation {
 				}
 			}
 			isItems := (len(a.invokes(a.c.renderName())) > 0 && len(a.invokes(a.c.nullName())) > 0) || f == c.role("renderItems") // the list renderer
+			if f.Parent() != nil && f.Parent() == c.role("renderItems") {
+				isItems = true // a function literal inside the list renderer
+			}
 			isTokRender := func(g *ssa.Function) bool {
 				for _, r := range c.codeImpls(c.renderName()) {
 					if r == g && g.Signature.Recv() != nil && types.TypeString(g.Signature.Recv().Type(), shortQual) == "jen.token" {
@@ -450,6 +454,21 @@ func ruleIsNullPure(c *Ctx) []Obligation {
 			continue
 		}
 		bad := 0
+		reach := g.Reach(f)
+		// the summaries are flow-insensitive (a hook field that is nil here counts as callable): when
+		// they object, the paths of this very implementation (helpers inlined) get the last word
+		impure := reach[reg] || sum.FuncVal
+		for _, ef := range sum.sortedEffects() {
+			if ef.Kind != "panic" {
+				impure = true
+			}
+		}
+		if impure {
+			if ok, why := c.pureOnPaths(f); ok {
+				o.add(Discharged, fname(f), "pure", f.Pos(), true, "%s", why)
+				continue
+			}
+		}
 		for _, ef := range sum.sortedEffects() {
 			if ef.Kind == "panic" {
 				continue
@@ -457,7 +476,6 @@ func ruleIsNullPure(c *Ctx) []Obligation {
 			bad++
 			o.add(Violated, fname(f), "null test has effect: "+ef.Kind+" "+ef.What+" in "+ef.Via, ef.Pos, true, "isNull must be a pure test (root %s)", ef.Root)
 		}
-		reach := g.Reach(f)
 		if reach[reg] {
 			bad++
 			o.add(Violated, fname(f), "null test reaches the registration function", f.Pos(), true, "an element judged null must not register an import")
@@ -1088,7 +1106,18 @@ func ruleCallback(c *Ctx) []Obligation {
 		if g.Sum[e] == nil {
 			continue
 		}
-		o.req(!g.Sum[e].FuncVal, fname(e), "no function value is called at render time", e.Pos(), "a user callback must never run during rendering")
+		okFV := !g.Sum[e].FuncVal
+		if !okFV {
+			// flow-insensitive; on the paths of this implementation (helpers inlined, hooks resolved
+			// where the path knows them) no call through an unknown function value may occur
+			ok, why := c.noFuncValueOnPaths(e)
+			if ok {
+				okFV = true
+			} else if os.Getenv("JENLINT_DEBUG") != "" {
+				fmt.Fprintln(os.Stderr, "noFuncValueOnPaths", fname(e), why)
+			}
+		}
+		o.req(okFV, fname(e), "no function value is called at render time", e.Pos(), "a user callback must never run during rendering")
 	}
 	return o.list
 }
@@ -1449,4 +1478,68 @@ func (c *Ctx) viaOnlyFromRegister(entry *ssa.Function, via string) bool {
 		}
 	}
 	return true
+}
+
+// pureOnPaths: on every path of f (module helpers inlined, Code implementations opaque) nothing
+// happens but null tests of other items, pure calls and type assertions: no write, no store or map
+// update to memory that existed before the call, no registration, no render of an item, no call
+// through an unresolved function value.
+func (c *Ctx) pureOnPaths(f *ssa.Function) (bool, string) {
+	paths, trunc := c.Paths(f, PXConfig{Opaque: c.stdOpaque(), MaxVisits: 3, MaxDepth: 4, MaxIndex: 3, MaxPaths: 60000})
+	if trunc || len(paths) == 0 {
+		return false, "path enumeration truncated"
+	}
+	reg := c.registerFn()
+	for _, p := range paths {
+		for _, e := range p.Events {
+			switch e.Kind {
+			case "write", "mapupdate", "funcvalue", "go", "defer", "send":
+				return false, "path " + traceOf(p) + ": " + e.Kind + " " + e.Name
+			case "store":
+				return false, "path " + traceOf(p) + ": store to " + e.Recv.String()
+			case "invoke":
+				if e.Name != c.nullName() && e.Name != "Error" && e.Name != "String" {
+					return false, "path " + traceOf(p) + ": invokes " + e.Name
+				}
+			case "call":
+				if e.Fn == reg {
+					return false, "path " + traceOf(p) + ": calls the registration function"
+				}
+				if e.Fn != nil && c.inModule(e.Fn) {
+					// an opaque module callee: only other null tests are acceptable
+					isNullImpl := false
+					for _, r := range c.codeImpls(c.nullName()) {
+						if r == e.Fn {
+							isNullImpl = true
+						}
+					}
+					if !isNullImpl {
+						return false, "path " + traceOf(p) + ": calls " + fname(e.Fn)
+					}
+				}
+			}
+		}
+	}
+	return true, fmt.Sprintf("flow-insensitive summary objected; on all %d paths of this implementation (helpers inlined) nothing but null tests of items and pure calls happens", len(paths))
+}
+
+// noFuncValueOnPaths: no path of f (helpers inlined) calls through a function value it cannot resolve.
+func (c *Ctx) noFuncValueOnPaths(f *ssa.Function) (bool, string) {
+	// only callees whose own summary contains a call through a function value can contribute such a
+	// call; everything else stays opaque, which keeps the enumeration small
+	g := c.CG()
+	std := c.stdOpaque()
+	opq := func(h *ssa.Function) bool { return std(h) || (g.Sum[h] != nil && !g.Sum[h].FuncVal) }
+	paths, trunc := c.Paths(f, PXConfig{Opaque: opq, MaxVisits: 2, MaxDepth: 4, MaxIndex: 2, MaxPaths: 100000})
+	if trunc || len(paths) == 0 {
+		return false, "path enumeration truncated"
+	}
+	for _, p := range paths {
+		for _, e := range p.Events {
+			if e.Kind == "funcvalue" {
+				return false, "path " + traceOf(p) + " calls " + e.Name
+			}
+		}
+	}
+	return true, ""
 }
